@@ -25,7 +25,7 @@ RES = "std::result::Result"
 
 # name -> (arity of closure call, ...) handled below
 OPTION_COMBINATORS = {"map", "and_then", "filter", "unwrap_or_else", "or_else", "ok_or_else", "map_or", "unwrap_or", "is_some_and", "ok_or", "inspect"}
-RESULT_COMBINATORS = {"map", "map_err", "and_then", "or_else", "unwrap_or_else", "ok", "err", "unwrap_or", "is_ok_and", "is_err_and", "inspect_err", "inspect"}
+RESULT_COMBINATORS = {"map", "map_err", "and_then", "or_else", "unwrap_or_else", "ok", "err", "unwrap_or", "is_ok_and", "is_err_and", "inspect_err", "inspect", "map_or"}
 
 
 class _Ctx:
@@ -516,7 +516,7 @@ def desugar_call(cx, bb):
     closure = None
     needs_closure = {
         OPT: {"map", "and_then", "filter", "unwrap_or_else", "or_else", "ok_or_else", "map_or", "is_some_and", "inspect"},
-        RES: {"map", "map_err", "and_then", "or_else", "unwrap_or_else", "is_ok_and", "is_err_and", "inspect_err", "inspect"},
+        RES: {"map", "map_err", "and_then", "or_else", "unwrap_or_else", "is_ok_and", "is_err_and", "inspect_err", "inspect", "map_or"},
     }[adt]
     if name in needs_closure:
         cop = args[-1]
@@ -599,6 +599,9 @@ def desugar_call(cx, bb):
             arm[N] = run_closure([_use(payload(N, ni))], lambda r, ty: set_dest(_use(r)))
         elif name == "unwrap_or" and len(args) == 2:
             arm[S] = set_dest(_use(payload(S, si)))
+            arm[N] = set_dest(_use(args[1]))
+        elif name == "map_or" and len(args) == 3:
+            arm[S] = run_closure([_use(payload(S, si))], lambda r, ty: set_dest(_use(r)))
             arm[N] = set_dest(_use(args[1]))
         elif name == "ok" and len(args) == 1:
             arm[S] = set_dest(wrap(OPT, "Some", 1, payload(S, si)))
